@@ -72,3 +72,12 @@ package editor
 //@   terminates
 //@   requires bufok(reg)
 //@   assigns mapof(reg.num), mapof(reg.alpha)
+
+// C01: rotating the kill ring keeps every register well-formed (each moved entry goes through a string conversion)
+//@ func (*Buffers).Pop
+//@   props C01 C16
+//@   requires bufok(reg)
+//@   assigns mapof(reg.num)
+//@   ensures [clean-result] clean(result)
+//@   ensures [registers-stay-clean] old(regsclean(reg)) ==> regsclean(reg)
+//@   loop 1 invariant bufok(reg) && (old(regsclean(reg)) ==> regsclean(reg))
